@@ -170,7 +170,7 @@ func checkDecodeKey(b []byte, t sql.SQLValueType, maxLen int) string {
 }
 
 func TestSQLValueDecoders(t *testing.T) {
-	vk.Check(t, 60000, 3000000, func(rt *rapid.T, c *vk.Case) {
+	vk.Check(t, 60000, 1500000, func(rt *rapid.T, c *vk.Case) {
 		sv := genSQLVal(rt)
 		asKey := sv.maxLen > 0 && rapid.Bool().Draw(rt, "asKey")
 		var enc []byte
@@ -376,16 +376,15 @@ func checkPgMsg(kind string, b []byte, honorKnown bool) string {
 			fm.ParseTerminateMsg(b)
 		}
 	})
-	// Bind allocates one buffer + one string per parameter, each bounded by pgmeta.MaxMsgSize (32 MiB) whatever the
-	// payload holds: up to 64 MiB for a 20-byte message. That is a documented constant bound; the limit here is 96 MiB.
-	r.base = 96 << 20
+	// Bind allocates one buffer + one string per parameter, each bounded by pgmeta.MaxMsgSize whatever the payload
+	// holds (2 x MaxMsgSize for a 20-byte message): a constant bound, well below the 64 MiB limit with MaxMsgSize = 4 MiB.
 	return r.verdict(fmt.Sprintf("fmessages parser of a %q message, payload %s", kind, hexs(b)), len(b))
 }
 
 var pgKinds = []string{"bind", "parse", "execute", "describe", "query", "password", "copyfail", "copydata", "sync", "flush", "terminate"}
 
 func TestPgsqlFrontendMessages(t *testing.T) {
-	vk.Check(t, 24000, 1000000, func(rt *rapid.T, c *vk.Case) {
+	vk.Check(t, 40000, 1000000, func(rt *rapid.T, c *vk.Case) {
 		msg := genPgMsg(rt)
 		b, desc, single := mutate(rt, msg.l)
 		kind := msg.kind
